@@ -711,6 +711,8 @@ class HTTP1Connection(httputil.HTTPConnection):
         self, delegate: httputil.HTTPMessageDelegate
     ) -> None:
         body = await self.stream.read_until_close()
+        if len(body) > self._max_body_size:
+            raise httputil.HTTPInputError("body too large")
         if not self._write_finished or self.is_client:
             with _ExceptionLoggingContext(app_log):
                 ret = delegate.data_received(body)
